@@ -68,6 +68,12 @@ class Scope:
             for i, e in enumerate(target.elts):
                 if isinstance(value, (ast.Tuple, ast.List)) and len(value.elts) == len(target.elts):
                     self._bind(e, value.elts[i])
+                elif value is not None and not isinstance(value, (ast.Tuple, ast.List)) and not any(isinstance(x, ast.Starred) for x in target.elts):
+                    # a, b = <expr>: a is <expr>[0], b is <expr>[1]
+                    sub = ast.Subscript(value=value, slice=ast.Constant(i), ctx=ast.Load())
+                    ast.copy_location(sub, value)
+                    ast.fix_missing_locations(sub)
+                    self._bind(e, sub)
                 else:
                     self._bind(e, None)
         elif isinstance(target, ast.Starred):
@@ -182,6 +188,9 @@ class Canon:
             return self._call(e)
         if isinstance(e, ast.Subscript):
             base, idx = self._t(e.value), self._t(e.slice)
+            # s.partition(sep)[0] is s.split(sep)[0] (the text before the first separator)
+            if idx == ('num', 0) and base[0] == 'call' and base[1][0] == 'attr' and base[1][2] == 'partition' and len(base[2]) == 1 and not base[3]:
+                base = ('call', ('attr', base[1][1], 'split'), base[2], ())
             if base[0] == 'attr' and base[2] == 'shape' and idx == ('num', 0):
                 return ('call', ('name', 'len'), (base[1],), ())          # x.shape[0] is len(x)
             return ('sub', base, idx)
@@ -265,6 +274,24 @@ class Canon:
         if dotted in ('numpy.abs', 'numpy.absolute', 'numpy.fabs') or (ft == ('name', 'abs')):
             if len(args) == 1:
                 return ('call', ('lib', 'abs'), (args[0],), kws)
+        # d.get(k, None) is d.get(k)
+        if isinstance(f, ast.Attribute) and f.attr == 'get' and len(args) == 2 and args[1] == ('none',) and not kws:
+            args = args[:1]
+        # map(f, s) is (f(x) for x in s); filter(None, s) is (x for x in s if x)
+        if ft in (('name', 'map'), ('lib', 'map')) and len(args) == 2 and not kws:
+            cv = ('cvar', self._cdepth, 0)
+            fterm = args[0]
+            if fterm[0] == 'lambda' and fterm[1] == 1:
+                body = _subst_param(fterm[2], cv)
+            else:
+                if fterm[0] == 'attr' and fterm[2] == 'get':
+                    body = ('call', fterm, (cv,), ())
+                else:
+                    body = ('call', fterm, (cv,), ())
+            return ('genexp', body, ((args[1], ()),))
+        if ft in (('name', 'filter'), ('lib', 'filter')) and len(args) == 2 and not kws and args[0] == ('none',):
+            cv = ('cvar', self._cdepth, 0)
+            return ('genexp', cv, ((args[1], (cv,)),))
         if ft in (('name', 'list'), ('lib', 'list')) and len(args) == 1 and not kws and args[0][0] in ('genexp', 'listcomp'):
             return ('listcomp',) + args[0][1:]
         if dotted == 'itertools.chain.from_iterable' and len(args) == 1 and not kws and args[0][0] in ('genexp', 'listcomp') and args[0][1][0] == 'tuple':
@@ -328,6 +355,9 @@ class Canon:
             return v[1]
         if v[0] == 'bool':
             return ('bool', not v[1])
+        if v[0] in ('and', 'or') and all(isinstance(x, tuple) and x and x[0] in ('cmp', 'not', 'and', 'or') for x in v[1]):
+            # De Morgan, so that a negated conjunction of comparisons has one spelling
+            return ('or' if v[0] == 'and' else 'and', tuple(sorted((self._not(x) for x in v[1]), key=repr)))
         return ('not', v)
 
     def _cmp(self, op, l, r):
@@ -416,6 +446,24 @@ class Canon:
         if len(flat) == 1:
             return flat[0]
         return ('*', tuple(sorted(flat, key=repr)))
+
+
+def _subst_param(term, by):
+    if term == ('param', 0):
+        return by
+    if isinstance(term, tuple):
+        return tuple(_subst_param(x, by) for x in term)
+    return term
+
+
+def unkind(term):
+    """forget whether a comprehension is a list or a generator (for comparisons where only the elements matter)"""
+    if isinstance(term, tuple):
+        t = tuple(unkind(x) for x in term)
+        if t and t[0] == 'genexp':
+            return ('listcomp',) + t[1:]
+        return t
+    return term
 
 
 def _target_names(t):
